@@ -87,7 +87,7 @@ func init() {
 }
 
 func c12IsTypeOp(k string) bool {
-	return k == "DefineType" || k == "DefineGlobalType" || k == "Type" || k == "ExtPutType" || k == "ExtDelType"
+	return k == "DefineType" || k == "DefineGlobalType" || k == "Type" || k == "ExtPutType" || k == "ExtDelType" || k == "FaultType"
 }
 
 // noteNames records the name an operation addresses when it is not a pool name.
